@@ -424,7 +424,8 @@ class RawCall(object):
         self.rows = {}
         self.const = {}
         cargs = []
-        for a in spec["args"]:
+        fill0 = fill
+        for ai, a in enumerate(spec["args"]):
             v = inp[a["name"]]
             if a["depth"] == 0:
                 if a["base"] in ("float", "double"):
@@ -432,6 +433,7 @@ class RawCall(object):
                 cargs.append(v)
                 continue
             tag, payload = v
+            fill = e2.arg_fill(fill0, ai)
             name = a["name"]
             if tag in ("in", "inout"):
                 b = e2.Buf(a["base"], len(payload), fill, dict(enumerate(payload)))
@@ -442,7 +444,8 @@ class RawCall(object):
                 b = e2.Buf(a["base"], payload, fill)
                 self.bufs[name] = b
             elif tag == "rows":
-                rows = [e2.Buf(a["base"], len(r), fill, dict(enumerate(r))) for r in payload]
+                rows = [e2.Buf(a["base"], len(r), e2.arg_fill(fill0, ai, ri), dict(enumerate(r)))
+                        for ri, r in enumerate(payload)]
                 for r in rows:
                     r.snapshot()
                 self.rows[name] = rows
@@ -451,7 +454,7 @@ class RawCall(object):
                 b.snapshot()
                 self.bufs[name] = b
             elif tag == "outrows":
-                rows = [e2.Buf(a["base"], n, fill) for n in payload]
+                rows = [e2.Buf(a["base"], n, e2.arg_fill(fill0, ai, r)) for r, n in enumerate(payload)]
                 self.rows[name] = rows
                 b = e2.Buf("uint64_t", len(rows), fill, {i: r.ptr() for i, r in enumerate(rows)})
                 b.snapshot()
@@ -487,11 +490,20 @@ class RawCall(object):
                 continue
             tag = inp[a["name"]][0]
             if tag in ("out", "inout"):
-                obs[a["name"]] = self.bufs[a["name"]].tolist()
+                b = self.bufs[a["name"]]
+                obs[a["name"]] = Observed(b.tolist(), b.fill)
             elif tag == "outrows":
                 for r, rb in enumerate(self.rows[a["name"]]):
-                    obs["%s[%d]" % (a["name"], r)] = rb.tolist()
+                    obs["%s[%d]" % (a["name"], r)] = Observed(rb.tolist(), rb.fill)
         return obs
+
+
+class Observed(list):
+    """Content of a written buffer plus the byte pattern it was pre-filled with."""
+
+    def __init__(self, vals, fill):
+        list.__init__(self, vals)
+        self.fill = fill
 
 
 def _eq(a, b):
@@ -513,7 +525,7 @@ def merge_fills(spec, inp, runs):
         tag = inp[base][0]
         out = []
         for i in range(len(vals0)):
-            vs = [(f, o[name][i]) for f, s, o in runs]
+            vs = [(o[name].fill, o[name][i]) for f, s, o in runs]
             if tag == "inout":
                 # initial content is data, not filler
                 v = vs[0][1]
